@@ -50,6 +50,9 @@ REG = {
  'C15': ('model_checking', 'TLA+ definition of the re-subscribing operators (Resub.tla) enumerated by TLC; replay over scripted cold sources',
          'Resub.tla runs attempt by attempt (invariants: at most one live attempt, attempts in order) and TLC enumerates every configuration x outcome sequence x condition sequence x cancellation point inside the bounds; the real operators are run over scripted cold sources (n-th subscription plays the n-th outcome, synchronously and from a goroutine) and forwarded values, terminal, number of subscriptions, overlap of attempts and release are compared.',
          'bounds: <= 3-4 attempts of <= 1-2 values; RetryWithConfig.Delay not exercised', '6/C15'),
+ 'C17': ('model_checking', 'TLA+ pipeline semantics for the slice/map/materialise bridges enumerated by TLC and replayed; TLA+ hand-off model (Detach.tla) checked by TLC and real channel traces validated against DetachTrace.tla',
+         'ToSlice / ToMap / Materialize-Dematerialize identity are decided by the Ops.tla machines (exhaustive inside bounds, per-step replay). ToChannel / FromChannel: Detach.tla models channel + sync.Once close + goroutine (FIFO, no loss, terminal last, close once; TLC exhaustive for capacities 0..2) and recorded traces of the real operators under every capacity, consumer speed, ending and unsubscription point are validated by TLC.',
+         'the ToChannel hand-out race (channel handed out after the source already completed) needs a park hook and is not exercised yet; Collect is covered by the kernel Wait traces', '6/C17'),
 }
 NA_REASON = 'check not built yet (framework under construction); planned, see DESIGN.md section 6'
 
